@@ -108,7 +108,7 @@ def run(tier, seed, flavour="plain", prop="C18"):
     od = core.run_dir(prop, tier)
     binary, disabled, messages = _build(flavour)
     res = core.run_sharded([{"name": "c18_defs", "binary": binary, "nshards": core.NCPU, "out": od,
-                             "args": ["--seed", str(seed), "--tier", tier, "--wide_rows", WIDE_ROWS, "--range_cases", RANGE_CASES] + core.deep(tier, cases=3000000),
+                             "args": ["--seed", str(seed), "--tier", tier, "--wide_rows", WIDE_ROWS, "--range_cases", RANGE_CASES] + core.deep(tier, cases=3000000) + core.boost(tier, flavour, cases=40000),
                              "env": core.SAN_ENV if flavour == "san" else None}], timeout=3600)
     V.absorb(res)
     m = core.merge_summaries(res)
